@@ -39,7 +39,7 @@ def _masks(n):
 
 # ---------------------------------------------------------------------------------- _sort_and_select
 def cases_select(tier):
-    for n in ((1, 2, 3) if tier == "quick" else (1, 2, 3, 4)):
+    for n in ((1, 2, 3) if tier == "quick" else (1, 2, 3, 4, 5, 6)):
         for failed in _masks(n):
             for first in range(n):
                 for last in range(first, n):
@@ -84,7 +84,7 @@ def cases_filter(tier):
     n = 3
     masks = _masks(n) if tier == "thorough" else [[False, False, False], [True, False, False], [False, True, True], [True, True, True]]
     for failed in masks:
-        for (first, last) in ((0, 0), (1, 2), (0, 2)):
+        for (first, last) in ((0, 0), (1, 2), (0, 2)) + (((1, 1), (2, 2), (0, 1)) if tier == "thorough" else ()):
             tag = "%s/%d-%d" % ("".join("F" if f else "o" for f in failed), first, last)
             yield "objective/J2-sort01/" + tag, {"kind": "objective", "J": 2, "sort": [0, 1], "failed": failed, "first": first, "last": last}
             yield "objective/J2-sort1/" + tag, {"kind": "objective", "J": 2, "sort": [1], "failed": failed, "first": first, "last": last}
